@@ -18,7 +18,8 @@ from makeimpl import EXPORTED, build, cat_spec, cores, describe, vector
 LEVEL = "proof"
 THEOREMS = ["C20_roundtrip", "C20_accepts", "C20_constructible", "C20_generated_good", "C20_reducer_must_carry", "C20_by_value", "C20_by_value_needs_reference"]
 RULE = (
-    "annotations generated from the 34 exported + 3 importable user-defined categories x array types "
+    "annotations generated from the 34 exported + 5 importable user-defined categories (two of them NAMED like exported ones, with "
+    "other dtypes) x array types "
     "{class, subclass, Any, Union, nested annotation (1-3 levels, categories drawn so that the effective "
     "dtypes differ from the written category)} x dim strings (named, fixed, '_', '...', '*v', '#', 'x=3', "
     "symbolic, whitespace, empty); routes pickle (protocols 2 and 5), cloudpickle, copy.copy, copy.deepcopy "
@@ -37,7 +38,7 @@ A = {"k": "cls", "name": "Duck"}
 A2 = {"k": "cls", "name": "Duck2"}
 O = {"k": "cls", "name": "Other"}
 ANY = {"k": "any"}
-USER = ["F32orI8", "OnlyBool", "HalfAndInts"]
+USER = ["F32orI8", "OnlyBool", "HalfAndInts", "user.Float", "user.Shaped"]
 CATS = EXPORTED + USER
 DIMS = ["", "a", "a b", "_", "...", "*v", "*v a", "#a 3", "x=3 _ *#w", "  a   b ", "a a+1", "... c", "1 _ _"]
 INNER_DIMS = ["", "a", "*v", "_ 2", "..."]
